@@ -245,6 +245,19 @@ mut("C16-track-copy-shares-bars", TRK, "cpy = self.__class__([bar.copy() for bar
 mut("C16-composition-copy-shares-tracks", CMP, "cpy = self.__class__([track.copy() for track in self.tracks])", "cpy = self.__class__([track for track in self.tracks])", ["C16"])
 mut("C16-split-remainder-shared", REL, "            current_sequence._messages.extend([msg for msg in working_memory])", "            current_sequence._messages.extend([msg for msg in self._messages[len(self._messages) - len(working_memory):]])", ["C16"])
 
+# C04
+mut("C04-cutoff-no-invalidate", SEQ, "        self.abs.cutoff(maximum_length=maximum_length, reduced_length=reduced_length)\n        self.invalidate_rel()", "        self.abs.cutoff(maximum_length=maximum_length, reduced_length=reduced_length)", ["C04"])
+mut("C04-messages-abs-no-finally", SEQ, "        try:\n            for message in self.abs._messages:\n                self.invalidate_rel()\n                yield message\n        finally:\n            self.invalidate_rel()", "        for message in self.abs._messages:\n            yield message\n            self.invalidate_rel()", ["C04"])
+mut("C04-pad-uses-private-rel", SEQ, "        self.rel.pad(padding_length)\n        self.invalidate_abs()", "        (self._rel if getattr(self, '_rel', None) is not None else self.rel).pad(padding_length)\n        self.invalidate_abs()", ["C04"])
+mut("C04-conversion-drops-trailing-wait", REL, "        if not cap_message_exists:\n            absolute_sequence.add_message(", "        if not cap_message_exists and len(self._messages) > 3:\n            absolute_sequence.add_message(", ["C04"])
+mut("C04-add-relative-no-invalidate", SEQ, "        self.rel.add_message(msg, index=index)\n        self.invalidate_abs()", "        self.rel.add_message(msg, index=index)", ["C04"])
+mut("C04-refresh-wrong-direction", SEQ, "        if self._rel_stale:\n            self._rel = self._abs.to_relative_sequence()\n            self._rel_stale = False\n\n    # Basic Methods", "        if self._rel_stale:\n            self._rel_stale = False\n\n    # Basic Methods", ["C04"])
+mut("C04-normalise-no-invalidate", SEQ, "        self.rel.normalise_relative()\n        self.invalidate_abs()", "        self.rel.normalise_relative()", ["C04"])
+mut("C04-transpose-no-invalidate", SEQ, "        shifted = self.rel.transpose(transpose_by)\n        self.invalidate_abs()", "        shifted = self.rel.transpose(transpose_by)", ["C04"])
+mut("C04-to-relative-wait-channel-time", ABS, "Message(message_type=MessageType.WAIT, channel=msg.channel, time=time - current_point_in_time))\n                current_point_in_time = time", "Message(message_type=MessageType.WAIT, channel=msg.channel, time=time - current_point_in_time))", ["C04"])
+mut("C04-insort-before-equal", UTL, "        if message.time < collection[mid].time:", "        if message.time <= collection[mid].time:", [])
+mut("C04-messages-rel-invalidate-only-at-end", SEQ, "            for message in self.rel._messages:\n                self.invalidate_abs()\n                yield message", "            for message in self.rel._messages:\n                yield message", [])
+
 
 def run(cmd, env):
     import signal
